@@ -509,7 +509,7 @@ func runC17(cx *ctx) {
 			cx.ru.Do(func() *h.Case { return ctorCase(fmt.Sprintf("ctor-pathlike-pos%d", pos), pos, p, d5, 0) })
 		}
 	}
-	for i := 0; i < cx.n(3000, 60000); i++ {
+	for i := 0; i < cx.n(30000, 600000); i++ {
 		rr := r.Fork()
 		cx.ru.Do(func() *h.Case {
 			style := rr.Intn(5)
